@@ -132,6 +132,8 @@ pub struct Outcome {
     pub collections: usize,
     pub swept: usize,
     pub fiber_mismatches: u64,
+    /// instruction boundaries at which an open upvalue pointed above the stack top
+    pub dangling_upvalues: u64,
     pub executed: u64,
 }
 
@@ -166,6 +168,7 @@ fn hooks_begin(cfg: &RunCfg) {
     vm::verif::set_fuel(cfg.fuel);
     let _ = vm::verif::take_executed();
     let _ = vm::verif::take_fiber_mismatches();
+    let _ = vm::verif::take_dangling_upvalues();
 }
 
 #[cfg(not(feature = "hooks"))]
@@ -185,6 +188,7 @@ fn hooks_end(o: &mut Outcome) {
     o.swept = s;
     o.executed = vm::verif::take_executed();
     o.fiber_mismatches = vm::verif::take_fiber_mismatches();
+    o.dangling_upvalues = vm::verif::take_dangling_upvalues();
     mv::set_gc_mode(mv::GcMode::Default);
     mv::set_quarantine(false);
     mv::purge();
@@ -322,6 +326,7 @@ impl Session {
             collections: 0,
             swept: 0,
             fiber_mismatches: 0,
+            dangling_upvalues: 0,
             executed: 0,
         };
         QUIET_PANICS.with(|q| *q.borrow_mut() = true);
